@@ -26,8 +26,10 @@
 EXTENDS SessionScanContract
 
 CONSTANTS
-  Sessions,     \* session ids the scan probes (the code: 1..0x7F); contains Default
-  Graphs,       \* family of edge sets E ranges over
+  Sessions,     \* candidate session ids the scan probes (the code: 1..0x7F); contains Default.
+                \* Keep at least one candidate that is no node of any graph: the code goes on
+                \* probing (and re-enters the stack) after the last session the ECU knows.
+  Graphs,       \* family of edge sets E ranges over (nodes \subseteq Sessions)
   Depths,       \* values of the depth option
   Skips,        \* values of the skip option (subsets of Sessions)
   Thoroughs,    \* subset of BOOLEAN
@@ -40,11 +42,11 @@ CONSTANTS
 VARIABLES E, depth, skip, thorough,      \* chosen in Init, constant afterwards
           cur,                            \* ECU: active session (ground truth)
           pc, d, found, si, searched, stack, pi, recover, rs, pos,
-          requested, nreq, hist, result, rows
+          requested, nreq, hist, result, rows, steps
 
 cfgvars == <<E, depth, skip, thorough>>
 vars == <<E, depth, skip, thorough, cur, pc, d, found, si, searched, stack, pi, recover, rs, pos,
-          requested, nreq, hist, result, rows>>
+          requested, nreq, hist, result, rows, steps>>
 
 Last(s) == s[Len(s)]
 
@@ -63,7 +65,7 @@ Init ==
   /\ found = [k \in 0..(MaxDepth + 1) |-> IF k = 0 THEN << <<Default>> >> ELSE <<>>]
   /\ si = 1 /\ searched = {} /\ stack = <<>> /\ pi = <<>> /\ recover = FALSE /\ rs = <<>>
   /\ pos = <<>> /\ requested = {} /\ nreq = 0 /\ hist = <<>>
-  /\ result = {} /\ rows = {}
+  /\ result = {} /\ rows = {} /\ steps = 0
 
 \* the ECU's reaction to DiagnosticSessionControl(s)
 Accepts(s) == <<cur, s>> \in E
@@ -71,7 +73,10 @@ Send(s) == /\ requested' = requested \cup {s}
            /\ nreq' = nreq + 1
            /\ hist' = IF KeepHist THEN Append(hist, s) ELSE hist
 
+Tick == steps' = steps + 1     \* every step of the scan is counted (D_Progress)
+
 DepthLoop ==
+  /\ Tick
   /\ pc = "Depth"
   /\ IF (IF Dev_M1_DepthOffByOne THEN d <= depth ELSE d < depth) /\ found[d] # <<>>
      THEN /\ d' = d + 1 /\ si' = 1 /\ pc' = "Stack"
@@ -80,6 +85,7 @@ DepthLoop ==
   /\ UNCHANGED <<cfgvars, cur, searched, stack, pi, recover, rs, pos, requested, nreq, hist, result, rows>>
 
 StackLoop ==
+  /\ Tick
   /\ pc = "Stack"
   /\ IF si > Len(found[d - 1])
      THEN pc' = "Depth" /\ UNCHANGED <<si, searched, stack, pi, recover>>
@@ -93,6 +99,7 @@ StackLoop ==
   /\ UNCHANGED <<cfgvars, cur, d, found, rs, pos, requested, nreq, hist, result, rows>>
 
 ProbeLoop ==
+  /\ Tick
   /\ pc = "Probe"
   /\ IF pi = <<>>
      THEN si' = si + 1 /\ pc' = "Stack" /\ UNCHANGED <<pi, rs>>
@@ -105,6 +112,7 @@ ProbeLoop ==
 
 \* one `await set_session(x)` of _recover_stack (the stack always starts with Default)
 RecoverStep ==
+  /\ Tick
   /\ pc = "Recover"
   /\ IF rs = <<>>
      THEN /\ recover' = FALSE /\ pc' = "Request"
@@ -117,6 +125,7 @@ RecoverStep ==
 
 \* `await set_session(session)` for the candidate at the head of pi
 Request ==
+  /\ Tick
   /\ pc = "Request"
   /\ LET s == Head(pi) IN
      /\ Send(s)
@@ -136,13 +145,16 @@ Request ==
 
 \* sorted(positive_results): the reported sessions, each with the first stack it was found on
 Report ==
+  /\ Tick
   /\ pc = "Report"
   /\ result' = {pos[i].s : i \in DOMAIN pos}
   /\ rows' = {pos[i] : i \in {j \in DOMAIN pos : \A k \in 1..(j - 1) : pos[k].s # pos[j].s}}
   /\ pc' = "Done"
   /\ UNCHANGED <<cfgvars, cur, d, found, si, searched, stack, pi, recover, rs, pos, requested, nreq, hist>>
 
-Next == DepthLoop \/ StackLoop \/ ProbeLoop \/ RecoverStep \/ Request \/ Report
+\* terminal states stutter explicitly so that TLC's deadlock check flags every OTHER stuck state
+Terminated == pc \in {"Done", "Abort"} /\ UNCHANGED vars
+Next == DepthLoop \/ StackLoop \/ ProbeLoop \/ RecoverStep \/ Request \/ Report \/ Terminated
 
 Spec == Init /\ [][Next]_vars /\ WF_vars(Next)
 
@@ -167,6 +179,11 @@ Verdict_Ok   == pc = "Done" /\ Assumed =>
                   Verdict(E, skip, depth, Cardinality(Sessions), requested, nreq, result, rows, "done") = "ok"
 \* design-only: whenever a candidate is requested the ECU really is where the scan believes it is
 D_Tracks     == pc = "Request" /\ cur # Last(stack) => ~Assumed
+\* termination as a safety property: every step is counted and the count stays below a closed-form
+\* cap (a cycle would exceed it; a stuck non-terminal state is a TLC deadlock)
+NS == Cardinality(Sessions)
+StepCap == 8 * (NS + 1) * (depth + 2) * (NS + 1) ^ depth
+D_Progress   == steps <= StepCap
 \* the skip list and the other options never change
 D_CfgConst   == [][UNCHANGED cfgvars]_vars
 =============================================================================
